@@ -90,6 +90,9 @@ def rowsFor (ys : List Q) (yLast : Q) (dup : Bool) (x : Q) (r : List Q) : List (
 /-- the lower edges of the cell `idx`, then its content: the CSV row of a cell -/
 def cellRow (axes : List (List Q)) (p : List Nat × Q) : List Q := (cellEdgesRef axes p.1).map (·.1) ++ [p.2]
 
+/-- the number of edges not greater than `v` (`bisect_right`) -/
+def edgesNotAbove (e : List Q) (v : Q) : Nat := e.countP (fun x => decide (x ≤ v))
+
 /-! ## Boolean decision procedures of the predicates -/
 
 /-- decides `Hist.WF` -/
